@@ -649,8 +649,7 @@ def oracle(case, obs):
 def model_op(case, obs):
     k = case["kind"]
     if k == "life":
-        if "e" in case["hist"]:
-            return None      # refused writes: covered by the real-code oracle (C18 models them for SQLite)
+        # refused writes ('e') are the model's `Op.bad` (C17_refused_writes_lose_nothing)
         hist = case["hist"] + ("c" if obs["cleanup_close"] else "")
         return {"op": "c17.life", "adapter": ADAPTERS[case["adapter"]][1], "hist": hist}
     if k == "split":
